@@ -255,10 +255,12 @@ def run_check(pid, tier, seed, replay=None):
         path = vlib.write_replay(pid, seed, payload)
         violations.append("VIOLATION property=%s replay=%s" % (pid, path))
 
-    if res["mismatches"] and not res["spec_failures"]:
-        sample = [byid.get(i, {"id": i}) for i in res["mismatches"][:5]]
+    # mismatches on cases that are not spec failures are reported even when all spec failures are known findings
+    mm_only = [i for i in res["mismatches"] if i not in set(res["spec_failures"])]
+    if mm_only and not unknown:
+        sample = [byid.get(i, {"id": i}) for i in mm_only[:5]]
         ties_broken.append(("correspondence", "model and implementation differ on %d case(s), e.g. %s" %
-                            (len(res["mismatches"]), json.dumps([s.get("desc") for s in sample], default=str)[:1500])))
+                            (len(mm_only), json.dumps([s.get("desc") for s in sample], default=str)[:1500])))
 
     if ties_broken and not violations:
         # the property is no longer shown to hold; no concrete failing input in hand
